@@ -1,70 +1,51 @@
 #!/usr/bin/env python3
-"""Regenerates MANIFEST.json from the table below (keeps it valid at all times)."""
+"""Regenerates MANIFEST.json from tools/claims.json (keeps it valid at all times)."""
 import json, os
 V = os.path.join(os.path.dirname(os.path.abspath(__file__)), "..")
-NOTE = "Lean kernel + propext/Classical.choice/Quot.sound (audited per theorem); tools/gen_model.py fact extraction; the hand-written model is validated by correspondence on the histories of each run only; harness canonicalisation and oracles are trusted"
-CLAIMS = {
- "C18": ("store", "Lean 4 theorems over the executable store model for all message sets, limits, offsets and arrival orders: both comparators are strict total orders, the listing is a sorted permutation determined by the set of messages, messages() returns exactly the requested slice for EVERY offset on both backends (empty beyond the end), out-of-range limits are refused, last_message is the head, and the cached pointer after any arrival order designates the head of the default order (partial: pointer across rollback/overwrite is the world engine's part). Tied to the code by regenerated facts (ORDER BY key lists, limits, overflow/clamp flags) and a correspondence + oracle run on both backends.",
-         "Lean 4 proof + model/implementation correspondence", "DESIGN §6 C18"),
- "C09": ("store", "Lean 4 theorems for every store, both backends, every reachable history (induction over all operation sequences): a successful rollback restores the group's record, relays, per-epoch secrets and MLS rows exactly as captured, changes nothing of any other group, destroys no message / processed-message / welcome record and no other snapshot, consumes exactly the named snapshot; a refused rollback has no effect; create/release/prune/list change no live state; re-taking a name succeeds and replaces. SQLite facts (cascade edges, restore SQL, retake) are re-extracted each run; correspondence + before/after full-dump oracle on both backends.",
-         "Lean 4 proof + model/implementation correspondence", "DESIGN §6 C09"),
- "C10": ("store", "Lean 4 theorems about the contract on either backend (last-write-wins lookups for groups, messages, dedup records; exact selection of invalidation / retry / pending-welcome queries; backend independence of listing, tag search and prune count from regenerated facts), the full equality statement kept as a Prop with closed counter-witnesses for the two open differences, and a three-way differential run (model/memory, model/SQLite, memory/SQLite) on identical seeded histories. Partial: the all-operations refinement theorem is not yet proved; equality of the backends is established per run by the differential oracle.",
-         "Lean 4 proof + three-way differential correspondence", "DESIGN §6 C10"),
- "C20": ("mgr", "Lean 4 theorems over the EpochSnapshotManager model for every retention value (0 included), both backends and every sequence of commits, MIP-03 comparisons, rollbacks, restarts with any TTL: every group's rollback queue holds at most `retention` entries after every step (induction over the op list), nothing older than the TTL is stored after a restart, a rollback leaves no queue entry at or after the rolled-back epoch, a commit is never better than itself and hydrated entries are never compared. Correspondence against the real manager over both storage backends (hydration order, retention trimming, release on rollback) and an oracle with a spec-level log (stored count <= retention, kept = most recent commits, TTL).",
-         "Lean 4 proof + model/implementation correspondence", "DESIGN §6 C20"),
- "C14": ("leak", "PARTIAL. Lean 4 theorems over a rendering semantics (values are arbitrarily nested texts built at extracted sites): a record whose argument classes are all clean contains no secret atom (render_clean, all tables/sites/values); every error-enum variant, every non-test construction of a free-text error payload, every manual Debug/Display impl (redaction_sound), every result/config type (results_redact) and every tracing call site (sites_clean) of the five crates - re-extracted from the current source on every run into GeneratedLeak.lean - has only clean argument classes (decide over the finite regenerated tables); hence every emitted record renders only public atoms (C14_full). The former counter-examples are regression traces in corpus/C14. The tie to the code is the translator (classification rules trusted, conservative: no rule => unknown => sensitive) plus a run-time correspondence: every captured mdk_* record must come from an extracted site and a canary may occur only where the Lean table says sensitive; an independent canary oracle scans every captured record and every rendered Err/result value.",
-         "Lean 4 proof over regenerated tables + run-time canary capture", "DESIGN §6 C14"),
- "C13": ("atrest", "PARTIAL. Lean 4 theorems: the get_or_create_db_key protocol stores at most one key and every finished caller returns it, for every number of threads and every schedule (invariant by induction; mutual exclusion and a stores <= deletes+1 bound also with delete_db_key); the model's step list equals the call sequence extracted from keyring.rs on every run; the constructor x file-state x keyring-state decision logic: an encrypted file opens iff the presented key is its key, never via new_unencrypted, reopening returns the same data, `new` on an existing file never generates a key, at most one key is stored over every history of constructor calls, modes 0600/0700; concurrent `new` on one path is safe for every schedule (one key, openers agree, never WrongEncryptionKey) but callers can be refused (witness). Assumed, exercised by the harness only: SQLCipher page/journal/WAL encryption and the validation read, temp_store=MEMORY, O_EXCL/chmod, std Mutex, atomic keyring calls.",
-         "Lean 4 proof + model/implementation correspondence + canary scan", "DESIGN §6 C13"),
- "C19": ("conc", "PARTIAL. Lean 4 theorems over an interleaving semantics of lock sections (Model.Locks), for any number of threads, any schedule and any store: single-section operations are the sequential run in completion order; a check-then-act operation equals the atomic operation at its second section under a precisely stated stability side condition (shown necessary by a witness); after the repair of memory save_message no memory method takes the state lock twice; snapshots are read / restored within one section; no method of Generated.lockShape nests locks, hence no wait-for cycle; operations on one group leave other groups' projection alone. Tied to the code by Generated.lockShape (lock sections of all storage methods, re-extracted each run), lockProg_follows_shape, lockProg_sequential and by linearizability checking of real concurrent runs, each linearization replayed on the Lean model.",
-         "Lean 4 proof + linearizability checking of the implementation against the model", "DESIGN §6 C19"),
- "C12": ("crash", "PARTIAL (storage level). Lean 4 theorems over a statement-level model of one SQLite connection (autocommit, BEGIN/COMMIT, SAVEPOINT/RELEASE; a crash keeps the committed contents and drops an open transaction): for every database contents, every statement list and EVERY crash point, snapshot creation, restore (snapshot rows read before BEGIN) and relay replacement leave either the pre-state or the post-state, the post-state only after the whole call; re-executing the interrupted call reaches the uninterrupted result; without the bracket the statement is false (witness). Which statements are bracketed is re-extracted from the source each run. Tied to the code by killing the process at every storage tick of every call of generated histories and checking reopen, pre/post classification, recoverability and tick counts.",
-         "Lean 4 proof + fault injection at every storage step", "DESIGN §6 C12"),
- "C15": ("codec", "Lean 4 theorems over the executable codec/tag model, for all values and all byte strings: the tls_codec variable-length prefix round-trips and has exactly one accepted spelling; decode(encode x) = x for every well-formed group-data extension value (any UTF-8 strings, admin/relay sets, all presence patterns of the optional fields, versions 1..65535); trailing bytes, version 0 and wrong fixed lengths are refused; hex / h-tag round trip and length check; validate_key_package_tags and parse_key_package accept iff an explicit predicate (binding of identity, KeyPackageRef, kind, encoding); validate_welcome_event accepts iff an explicit predicate; created key packages / welcomes are accepted by their own parsers; parse(create) = reference for imeta tags with rejection lemmas. Tied to the code by regenerated facts (struct layout, trailing-byte check, tag constants, MIME allow-list, versions) and by a correspondence run against the real code.",
-         "Lean 4 proof + model/implementation correspondence", "DESIGN §6 C15"),
- "C16": ("invite", "PARTIAL. Lean 4 theorems over the invitation state machine (process/accept/decline over the store model + abstract MLS table) for all client states, invitations, wrapper ids and both backends: same_wrapper_idempotent; no_consent_no_active (all accept-free histories); accept_state / accept_after_process; no_disturb for every group. The step order of the three functions is re-extracted from welcomes.rs on every run; correspondence and an oracle on the implementation's own views over invitation histories (replays under new wrapper ids, id-less / invalid / undecodable rumors, forged group ids, accept/decline in any order, group traffic in between).",
-         "Lean 4 proof + model/implementation correspondence", "DESIGN §6 C16"),
-}
-NOTES = {"C16": "Lean kernel + propext/Quot.sound(/Classical.choice); OpenMLS abstract (welcome = gid, post-commit token, epoch, members, group data; into_group with replace_old_group overwrites); hand model validated by correspondence on this run's histories only",
-         "C15": "Lean kernel + propext/Classical.choice/Quot.sound; UTF-8 validity and RelayUrl::parse are parameters of the theorems (driver instance covers ws(s)://host[:port][/path]); OpenMLS (de)serialisation of key packages / welcomes is an opaque verdict; hand-written model validated by correspondence on this run's cases only; truncation and non-minimal INNER prefixes are covered by correspondence + oracle, not by a theorem",
-         "C19": "a lock section is atomic by assumption: data races, lock implementations, SQLite threading and panics are runtime facts only sampled by the stress run; schedules are sampled, the theorems quantify over all of them",
-         "C12": "durability below the statement level is SQLite's; the mdk-core-level crash points (process_message, merge_pending_commit, welcomes) are not yet included (plug-in point harness/src/crash.rs::enumerate)",
-         "C13": "Lean kernel + propext/Quot.sound(/Classical.choice); tools/gen_model.py (keyringShape, guard lifetime, new()'s branches, PRAGMA order, mode constants); hand-written models validated by correspondence on this run's cells/histories/event traces only; confidentiality of file contents is an assumption on SQLCipher checked by a canary scan with a positive control",
-         "C14": "partial: call sites that did not fire in a run are covered by the static theorem only; the classification of expressions and 'third-party Display/Debug is clean' are trusted and listed in evidence; panic messages are not captured"}
-HOLD = {"C16": "engine merged; model being updated to the repaired /repo (welcome fixes) - re-claimed when ./check C16 is quiet again"}
+HOLD = {}
 PENDING = "not yet claimed: machinery under construction in this session (planned per DESIGN §12)"
+ENGINES = {
+ "store": ("harness/src/store.rs + vlib/storeeng.py", "correspondence + oracle engine over the storage traits on both backends"),
+ "mgr": ("harness/src/mgr.rs + vlib/mgreng.py", "drives the real EpochSnapshotManager over both backends"),
+ "leak": ("harness/src/leak.rs + vlib/leakeng.py + tools/gen_leak.py", "tracing capture + Display/Debug rendering of returned values under canary scenarios, mapped onto regenerated Lean tables"),
+ "atrest": ("harness/src/atrest.rs + vlib/atresteng.py + lean/Driver/AtrestDrv.lean", "constructor x file-state x keyring-state matrix against a mock keyring-core store, concurrent first opens, canary byte scan, mode bits"),
+ "conc": ("harness/src/conc.rs + vlib/conceng.py", "N threads on one shared backend instance; linearizability search certified on the Lean model; stress oracles"),
+ "crash": ("harness/src/crash.rs + vlib/crasheng.py", "simulated process death at every storage tick of every call on a file-backed sqlite store"),
+ "codec": ("harness/src/codec.rs + vlib/codeceng.py + lean/Driver/CodecDrv.lean", "correspondence + oracle engine over the real (de)serialisers of mdk-core; generated values and every single-field mutation"),
+ "invite": ("harness/src/invite.rs (on harness/src/world.rs) + vlib/inviteeng.py + vlib/check_C16.py + lean/Driver/InviteDrv.lean", "invitation histories on real MDK instances replayed on Model.Welcome; oracle on the implementation's own views"),
+ "world": ("harness/src/world.rs + vlib/worldeng.py + vlib/check_world.py + lean/Driver/WorldDrv.lean", "2..6 real MDK instances (memory/SQLite), pool of wrapper events, scheduled deliveries with duplication/reordering/restarts, replayed step by step on Model.Client; convergence / frame / sync / duplicate oracles"),
+ "know": ("harness/src/invite.rs + vlib/knoweng.py + vlib/check_C03.py + lean/Driver/KnowDrv.lean", "observers fed every event ever published; knowledge model replay"),
+ "media": ("harness/src/codec.rs (media ops) + harness/src/world.rs + vlib/mediaeng.py", "HKDF context / AAD correspondence and epoch-hint histories"),
+}
 def main():
-    engines = [{"name": "lean-model", "path": "lean/", "serves_properties": sorted(CLAIMS), "kind_free_text": "Lean 4 executable model, helper lemmas, property theorems (MdkVerif.Props.*), compiled driver mdkdrv"},
-               {"name": "store", "path": "harness/src/store.rs + vlib/storeeng.py", "serves_properties": [p for p, v in CLAIMS.items() if v[0] == "store"], "kind_free_text": "correspondence + oracle engine over the storage traits on both backends"},
-               {"name": "mgr", "path": "harness/src/mgr.rs + vlib/mgreng.py", "serves_properties": [p for p, v in CLAIMS.items() if v[0] == "mgr"], "kind_free_text": "drives the real EpochSnapshotManager over both backends"},
-               {"name": "leak", "path": "harness/src/leak.rs + vlib/leakeng.py + tools/gen_leak.py", "serves_properties": [p for p, v in CLAIMS.items() if v[0] == "leak"], "kind_free_text": "tracing capture + Display/Debug rendering of returned values under canary scenarios, mapped onto regenerated Lean tables"},
-               {"name": "atrest", "path": "harness/src/atrest.rs + vlib/atresteng.py + lean/Driver/AtrestDrv.lean", "serves_properties": [p for p, v in CLAIMS.items() if v[0] == "atrest"], "kind_free_text": "constructor x file-state x keyring-state matrix against a mock keyring-core store, concurrent first opens, canary byte scan, mode bits"},
-               {"name": "conc", "path": "harness/src/conc.rs + vlib/conceng.py", "serves_properties": [p for p, v in CLAIMS.items() if v[0] == "conc"], "kind_free_text": "N threads on one shared backend instance; linearizability search certified on the Lean model; stress oracles"},
-               {"name": "crash", "path": "harness/src/crash.rs + vlib/crasheng.py", "serves_properties": [p for p, v in CLAIMS.items() if v[0] == "crash"], "kind_free_text": "simulated process death at every storage tick of every call on a file-backed sqlite store"},
-               {"name": "codec", "path": "harness/src/codec.rs + vlib/codeceng.py + lean/Driver/CodecDrv.lean", "serves_properties": [p for p, v in CLAIMS.items() if v[0] == "codec"], "kind_free_text": "correspondence + oracle engine over the real (de)serialisers of mdk-core: extension bytes, key-package events, welcome rumors, imeta tags, h tags; generated values and every single-field mutation"},
-               {"name": "invite", "path": "harness/src/invite.rs (on harness/src/world.rs) + vlib/inviteeng.py + vlib/check_C16.py + lean/Driver/InviteDrv.lean", "serves_properties": [p for p, v in CLAIMS.items() if v[0] == "invite"], "kind_free_text": "invitation histories on real MDK instances replayed on Model.Welcome; oracle on the implementation's own views"},
-               {"name": "translator", "path": "tools/gen_model.py", "serves_properties": sorted(CLAIMS), "kind_free_text": "regenerates lean/MdkVerif/Generated.lean from /repo on every run"}]
+    claims = json.load(open(os.path.join(V, "tools", "claims.json")))
+    engines = [{"name": "lean-model", "path": "lean/", "serves_properties": sorted(claims), "kind_free_text": "Lean 4 executable model, helper lemmas, property theorems (MdkVerif.Props.*), compiled driver mdkdrv"}]
+    for name, (path, text) in ENGINES.items():
+        served = sorted(p for p, c in claims.items() if c["engine"] == name and p not in HOLD)
+        if served:
+            engines.append({"name": name, "path": path, "serves_properties": served, "kind_free_text": text})
+    engines.append({"name": "translator", "path": "tools/gen_model.py", "serves_properties": sorted(claims), "kind_free_text": "regenerates lean/MdkVerif/Generated*.lean from /repo on every run"})
     m = {"version": 1, "setup_cmd": "./setup.sh",
          "hooks": {"guard": "cargo feature verif-hooks (mdk-core, mdk-memory-storage, mdk-sqlite-storage)",
                    "enable": "the harness crate /verif/harness depends on /repo/crates/* by path with features = [\"verif-hooks\"]",
                    "baseline_off_cmd": "cd /repo && cargo nextest run --workspace --no-fail-fast --test-threads 8 --offline || cargo test --workspace --no-fail-fast --offline",
-                   "source_commits": ["c47a3be", "2aeb439"], "add_only": True},
+                   "source_commits": ["c47a3be", "2aeb439", "6d04b7a"], "add_only": True},
          "engines": engines, "checks": [],
-         "notes": "see DESIGN.md; known_findings.jsonl lists fixed and open findings; fix: commits in /repo are listed there",
+         "notes": "see DESIGN.md; known_findings.jsonl lists fixed and open findings; fix: commits in /repo are listed there; seeded/ holds confirmed breaking changes and which checks catch them",
          "not_applicable": []}
-    for pid in sorted(CLAIMS):
+    for pid in sorted(claims):
         if pid in HOLD:
             continue
-        eng, text, tech, ref = CLAIMS[pid]
+        c = claims[pid]
         m["checks"].append({"property_id": pid, "quick_cmd": f"./check {pid} --tier quick", "thorough_cmd": f"./check {pid} --tier thorough",
                             "evidence_file": f"evidence/{pid}.json", "replay_cmd_template": f"./check {pid} --replay {{path}}",
-                            "engine": f"lean-model+{eng}", "level_claimed": {"category": "proof", "text": text, "design_ref": ref},
-                            "level_note": NOTES.get(pid, NOTE), "technique": tech})
+                            "engine": f"lean-model+{c['engine']}", "level_claimed": {"category": "proof", "text": c["text"], "design_ref": c["design_ref"]},
+                            "level_note": c["note"], "technique": c["technique"]})
     for i in range(1, 21):
         pid = f"C{i:02d}"
         if pid in HOLD:
             m["not_applicable"].append({"property_id": pid, "reason": HOLD[pid]})
-        elif pid not in CLAIMS:
+        elif pid not in claims:
             m["not_applicable"].append({"property_id": pid, "reason": PENDING})
     json.dump(m, open(os.path.join(V, "MANIFEST.json"), "w"), indent=1)
 if __name__ == "__main__":
